@@ -244,7 +244,8 @@ def np_zeros(ex, st, node, args, kw):
             kind = dt[1]
         else:
             nm = getattr(dt, 'name', None) or (dt if isinstance(dt, str) else '')
-            kind = {'complex': 'complex', 'float': 'real', 'int': 'int'}.get(nm, 'complex')
+            nm = str(nm).split('.')[-1]
+            kind = {'complex': 'complex', 'complex128': 'complex', 'float': 'real', 'float64': 'real', 'int': 'int'}.get(nm, 'complex')
     return ZArr(shp, kind)
 
 def np_norm(ex, st, node, args, kw):
